@@ -15,8 +15,9 @@
    for the float constants of the pipeline only, float_lex_ok = "repr(x) is one FLOAT_NUMBER literal that float() reads
    back as x"), and which code points above 127 str.isprintable rejects (the theorems hold for EVERY such predicate).
 
-   FULL STATEMENT "for every pipeline" is FALSE for the code as it is: C12_print_rebuild_refuted_* below.  It is proved
-   for pipelines in builder-normal form (`normal`: every tree the builder API produces -- no skipped order_rows, no
+   FULL STATEMENT "for every pipeline" is FALSE for the code as it is: C12_print_rebuild_refuted_* below.  The guarded
+   versions are the theorems named ..._partial; what is missing from the full statement is exactly the content of the guards:
+   they are proved for pipelines in builder-normal form (`normal`: every tree the builder API produces -- no skipped order_rows, no
    mergeable extends, no select_columns over select / drop; flags as the constructors compute them) whose expressions are
    printable in C13's sense (what the parser builds, minus C13's listed findings: infinite constants, lists of fewer than
    two items, -0.0 as the base of a power) and lexable (column / method names are ASCII identifiers that are not keywords).
@@ -48,12 +49,12 @@ Print Assumptions C12_expression_text_lexes.
 (* ================================================================== 2. expressions *)
 (* C13's round trip lifted through the string-literal layer: print the expression, quote the text as pipelines do, let
    Python evaluate the literal, lex and parse it in the context of the columns: the same expression object *)
-Theorem C12_print_rebuild_expr : forall (F : ffmt) (np : N -> bool) (c : cfg) (dd : list string) (e : expr),
+Theorem C12_print_rebuild_expr_partial : forall (F : ffmt) (np : N -> bool) (c : cfg) (dd : list string) (e : expr),
   printable c dd e = true -> is_term e = true -> lexable e = true -> (forall m, In m (floats_of e) -> float_lex_ok F m) ->
   exists text, py_unquote (py_repr np (expr_text F np e)) = Some text /\ text = expr_text F np e
                /\ parse_text F c dd text = Ok e /\ PyExpr.is_equal e e = true.
 Proof. exact print_rebuild_expr. Qed.
-Print Assumptions C12_print_rebuild_expr.
+Print Assumptions C12_print_rebuild_expr_partial.
 
 (* ================================================================== 3. the Python subset of printed pipelines *)
 (* the parser inverts the layout of every well-formed syntax tree *)
@@ -63,23 +64,23 @@ Print Assumptions C12_parse_flatten.
 
 (* ================================================================== 4. pipelines *)
 (* printing a normal pipeline and evaluating the text gives a pipeline that == the original (it is the same tree) *)
-Theorem C12_print_rebuild_op : forall (E : penv) (p : eop), normal E p = true -> floats_ok_op E p ->
+Theorem C12_print_rebuild_op_partial : forall (E : penv) (p : eop), normal E p = true -> floats_ok_op E p ->
   exists ts p', print_op E p = Some ts /\ rebuild E ts = Some p' /\ p' = p /\ pipeline_eqb p p' = true /\ pipeline_eqb p' p = true.
 Proof. exact print_rebuild_op. Qed.
-Print Assumptions C12_print_rebuild_op.
+Print Assumptions C12_print_rebuild_op_partial.
 
 (* ... which gives the same result on every input, for every backend flavour (C11's soundness of ==) *)
-Theorem C12_print_rebuild_same_result : forall (E : penv) (p : eop), normal E p = true -> floats_ok_op E p ->
+Theorem C12_print_rebuild_same_result_partial : forall (E : penv) (p : eop), normal E p = true -> floats_ok_op E p ->
   exists ts p', print_op E p = Some ts /\ rebuild E ts = Some p' /\ pipeline_eqb p p' = true /\
     forall sa sb, to_sem p = Some sa -> to_sem p' = Some sb -> forall fl env, sem_gen fl sa env = sem_gen fl sb env.
 Proof. exact print_rebuild_same_result. Qed.
-Print Assumptions C12_print_rebuild_same_result.
+Print Assumptions C12_print_rebuild_same_result_partial.
 
 (* the printer is injective: the text determines the pipeline (what a cache keyed by the text relies on) *)
-Theorem C12_printer_injective : forall (E : penv) (p q : eop),
+Theorem C12_printer_injective_partial : forall (E : penv) (p q : eop),
   normal E p = true -> normal E q = true -> floats_ok_op E p -> floats_ok_op E q -> print_op E p = print_op E q -> p = q.
 Proof. exact printer_injective. Qed.
-Print Assumptions C12_printer_injective.
+Print Assumptions C12_printer_injective_partial.
 
 (* ================================================================== 5. the full statement is false: witnesses *)
 (* a column whose name is not an identifier, used in an expression (built with term objects: the expression language
